@@ -457,6 +457,32 @@ def run(ck):
         scale_event("smtlib_parse_int_literals_over_reals", len(order), len(c_stc.calls), res, K=4, slack=16)
     else:
         scale_event("smtlib_parse_int_literals_over_reals", 1, 0, res)
+    # shared sub-terms named by chains of define-fun (nullary, and unary applied to the previous name): the work of the
+    # environment's walkers the parser calls (type checker, substituter, simplifier) must stay linear in the DAG
+    nlev = 1200 if quick else 5000
+    for fam, sort, leaf_txt, body, body1 in (
+            ("bool", "Bool", "p0", "(and (or (not .d%d) p0) .d%d)", "(and (or (not z) p0) z)"),
+            ("int", "Int", "i0", "(+ (- .d%d 1) .d%d)", "(+ (- z 1) z)"),
+            ("bv", "(_ BitVec 4)", "v0", "(bvadd (bvnot .d%d) .d%d)", "(bvadd (bvnot z) z)")):
+        for style in ("nullary", "unary"):
+            pysmt.environment.reset_env()
+            env = pysmt.environment.get_env()
+            cs = [Counter(env.stc), Counter(env.substituter), Counter(env.simplifier)]
+            decl = "(declare-fun %s () %s)" % (leaf_txt, sort)
+            if style == "nullary":
+                text = decl + "(define-fun .d0 () %s %s)" % (sort, leaf_txt) + "".join(
+                    "(define-fun .d%d () %s %s)" % (k, sort, body % (k - 1, k - 1)) for k in range(1, nlev))
+            else:
+                text = decl + "(define-fun step ((z %s)) %s %s)" % (sort, sort, body1) + "(define-fun .d0 () %s %s)" % (sort, leaf_txt) + "".join(
+                    "(define-fun .d%d () %s (step .d%d))" % (k, sort, k - 1) for k in range(1, nlev))
+            text += "(assert (= .d%d .d%d))" % (nlev - 1, nlev - 2)
+            got = []
+            res = timed(lambda: got.append(SmtLibParser(env).get_script(io.StringIO(text)).commands[-1].args[0]), 120)
+            if got:
+                order, idx, kids = real_dag(got[0])
+                scale_event("smtlib_parse_define_chain:%s/%s" % (fam, style), len(order), sum(len(c.calls) for c in cs), res, K=6, slack=32)
+            else:
+                scale_event("smtlib_parse_define_chain:%s/%s" % (fam, style), 1, 0, res)
     sys.setrecursionlimit(old_limit)
     verdicts, st = tlc.validate_events("Trace_Pure", evs, constants={"Seed": 0, "Cap": 8})
     ck.add_tlc(st)
